@@ -1,2 +1,10 @@
 import MpireModel.Props.C14
-#print axioms Mpire.C14.placeholder
+#print axioms Mpire.C14.chunks_partition
+#print axioms Mpire.C14.chunk_i_size
+#print axioms Mpire.C14.announced_eq_produced
+#print axioms Mpire.C14.int_chunk_size
+#print axioms Mpire.C14.real_chunk_size
+#print axioms Mpire.C14.n_splits_count
+#print axioms Mpire.C14.n_splits_balanced
+#print axioms Mpire.C14.n_splits_iterable_len
+#print axioms Mpire.C14.more_splits_than_tasks
